@@ -67,7 +67,7 @@ Definition cp_obs_eqb (a b : cp_obs) : bool :=
 Definition model_ei (fs : list live_frame) (e : live_exc) : ei_obs :=
   let cs := map cp_of_live fs in
   let ty := ei_type (ex_module e) (ex_qualname e) in
-  let msg := ex_str e in
+  let msg := ei_msg e in
   let fmt := ei_formatted P cs ty msg in
   mkEiObs (map (fun c => mkCpObs (cp_path c) (cp_lineno c) (cp_func c) (deferred_str P (cp_raw c))) cs)
           ty msg fmt (ei_exc_only ty msg)
@@ -118,14 +118,20 @@ Definition ei_clauses (fs : list live_frame) (e : live_exc) (o : ei_obs) (T : tb
 Definition ei_verdict (fs : list live_frame) (e : live_exc) (interp : str) (o : ei_obs) : verdict :=
   let T := std_tb P fs e in
   let agree := ei_obs_eqb (model_ei fs e) o in
-  (* validation of the transcribed standard against the real traceback module *)
-  let spec_valid := str_eqb interp (std_text T) in
+  (* validation of the transcribed standard against the real traceback module: the shown
+     exception text has the transcribed shape and the whole text is the Spec's rendering *)
+  let spec_valid := is_some (hint_of e) && str_eqb (ex_shown e) (exc_text (t_type T) (t_msg T)) &&
+                    str_eqb interp (std_text T) in
   let rep := long_repeat (t_frames T) in
+  let special := rep || negb (plain_exc e) in
   (* ParsedException reads ExceptionInfo's output back whenever the text is well-formed *)
-  let reparse := negb (wf P T) || rep ||
+  let reparse := negb (wf P T) || special ||
                  match eo_more o with Some (_, _, _, r) => rtb_eqb r (Ok T) | None => true end in
   let holds := spec_valid && ei_clauses fs e o T (std_text T) && reparse in
-  let known := rep && spec_valid && ei_clauses fs e o T (plain_text T) in
+  (* recorded findings: recursion folding, display-time suggestions, failing __str__; the
+     implementation must then show exactly the unfolded text with its own message *)
+  let T' := mkTb (t_frames T) (t_type T) (ei_msg e) in
+  let known := special && spec_valid && ei_clauses fs e o T' (plain_text T') in
   (agree, holds, known).
 
 Definition c16_verdict (c : c16_case) : verdict :=
